@@ -298,7 +298,7 @@ def preload():
                   'msdm.algorithms.fscgradientascent',
                   'msdm.domains', 'msdm.domains.gridworld.mdp', 'msdm.domains.gridmdp.windygridworld',
                   'msdm.domains.cliffwalking', 'msdm.domains.tiger', 'msdm.domains.loadunload',
-                  'msdm.domains.heavenorhell', 'msdm.domains.gridgame.tabulargridgame']:
+                  'msdm.domains.heavenorhell', 'msdm.domains.gridgame.tabulargridgame', 'msdm.core.distributions.discretefactortable']:
             try:
                 importlib.import_module(m)
             except Exception as e:  # noqa: BLE001
@@ -316,8 +316,10 @@ def _replacements(extra=None):
     import scipy.sparse.csgraph as csg
     import scipy.spatial.distance as ssd
     import warnings
+    import scipy.special as ssp
     rep = {id(_np): NP, id(_random): RANDOM, id(_math): MATH, id(warnings): WARNINGS,
-           id(csg.floyd_warshall): floyd_warshall_facade, id(ssd.cdist): cdist_facade}
+           id(csg.floyd_warshall): floyd_warshall_facade, id(ssd.cdist): cdist_facade,
+           id(ssp.softmax): softmax_facade, id(ssp.logsumexp): logsumexp_facade}
     try:
         import torch
         from . import symtorch
@@ -702,3 +704,40 @@ class SaltedOrderSet(set):
         e = self._order()[0]
         set.remove(self, e)
         return e
+
+
+# --------------------------------------------------------------------------
+# scipy.special.softmax / logsumexp over log-domain values (discrete factor tables)
+def _split_logval(x):
+    if isinstance(x, LogVal):
+        return x.p, x.t
+    return 1, x
+
+
+def softmax_facade(scores, axis=None, **kw):
+    xs = list(scores)
+    if not any(is_sym(x) or isinstance(x, (LogVal, Fraction)) for x in xs):
+        from scipy.special import softmax as sm
+        return sm(_np.asarray(xs, dtype=float))
+    pts = []
+    for x in xs:
+        if core._is_inf(x) and x < 0:
+            pts.append((0, 0))
+        else:
+            pts.append(_split_logval(x))
+    m = None
+    for p, t in pts:
+        if not (not is_sym(p) and p == 0):
+            m = t if m is None else core.smax2(m, t)
+    es = [(0 if (not is_sym(p) and p == 0) else p * core.sym_exp(t - m)) for p, t in pts]
+    z = core.ssum(es)
+    return [e / z for e in es]
+
+
+def logsumexp_facade(scores, **kw):
+    xs = list(scores)
+    if not any(is_sym(x) or isinstance(x, (LogVal, Fraction)) for x in xs):
+        from scipy.special import logsumexp as lse
+        return lse(_np.asarray(xs, dtype=float))
+    tot = core.ssum(core.sym_exp(x) for x in xs if not (core._is_inf(x) and x < 0))
+    return core.sym_log(tot)
